@@ -12,7 +12,7 @@ demo() {
   local saved=$GIT_CONFIG_GLOBAL; [ "$PKG" = sh ] || [ "$PKG" = shbin ] || [ "$PKG" = shbindir ] && unset GIT_CONFIG_GLOBAL
   if [ "$PKG" = sh ]; then SRC=$WT bash $D/demo.sh $WT >/tmp/confirm-demo-$$.log 2>&1;
   elif [ "$PKG" = shbindir ]; then mkdir -p /tmp/confirm-bin-$$ && go build -o /tmp/confirm-bin-$$/git-lfs . && (cd /tmp && PATH=/tmp/confirm-bin-$$:$PATH bash $D/demo.sh /tmp/confirm-bin-$$) >/tmp/confirm-demo-$$.log 2>&1;
-  elif [ "$PKG" = shbin ]; then mkdir -p /tmp/confirm-bin-$$ && go build -o /tmp/confirm-bin-$$/git-lfs . && (cd /tmp && PATH=/tmp/confirm-bin-$$:$PATH bash $D/demo.sh /tmp/confirm-bin-$$/git-lfs) >/tmp/confirm-demo-$$.log 2>&1; else cp $D/demo_test.go $WT/$PKG/zz_seed_demo_test.go; go test -vet=off -count=1 -run "$RUN" ./$PKG/ >/tmp/confirm-demo-$$.log 2>&1; fi
+  elif [ "$PKG" = shbin ]; then mkdir -p /tmp/confirm-bin-$$ && go build -o /tmp/confirm-bin-$$/git-lfs . && (cd /tmp && PATH=/tmp/confirm-bin-$$:$PATH bash $D/demo.sh /tmp/confirm-bin-$$/git-lfs) >/tmp/confirm-demo-$$.log 2>&1; else mkdir -p $WT/$PKG; cp $D/demo_test.go $WT/$PKG/zz_seed_demo_test.go; go test -vet=off -count=1 -run "$RUN" ./$PKG/ >/tmp/confirm-demo-$$.log 2>&1; fi
   rc=$?; rm -f $WT/$PKG/zz_seed_demo_test.go; export GIT_CONFIG_GLOBAL=$saved; : > $saved; return $rc
 }
 demo; base=$?; cp /tmp/confirm-demo-$$.log /tmp/confirm-demo-base-$$.log
